@@ -68,6 +68,9 @@ type Interp struct {
 	MaxUnwind int
 	MaxInstrs int
 	Deadline  time.Time
+	// SchedOrder: preferred order (goroutine ids in creation order, 0 = main) in which
+	// ready goroutines are resumed when the running one blocks
+	SchedOrder []int
 	Stats     Stats
 	initDone  map[*ssa.Package]bool
 	InitPkgs  map[string]bool // packages whose init is interpreted
